@@ -61,6 +61,23 @@ def _match_field(t, w: int):
             return a[2], a[3]
     if t[0] == "bin" and t[1] == "%" and t[3] == ("const", 1 << w) and t[2][0] == "bin" and t[2][1] == ">>":
         return t[2][2], t[2][3]
+    ms = _mask_then_shift(t)
+    if ms is not None:
+        X, R, S = ms
+        pr, ps = to_poly(R), to_poly(S)
+        if pr is not None and ps is not None and (pr - ps) == Poly.const(w):
+            return X, S
+    return None
+
+
+def _mask_then_shift(t):
+    """(X, R, S) if t == (X & (2^R - 1)) >> S: the R low bits of X without their S lowest ones - the same R - S bits as (X >> S) & (2^(R-S) - 1)."""
+    if t[0] == "bin" and t[1] == ">>" and t[2][0] == "bin" and t[2][1] == "&":
+        for x, m in ((t[2][2], t[2][3]), (t[2][3], t[2][2])):
+            if m[0] == "bin" and m[1] == "-" and m[3] == ("const", 1) and m[2][0] == "bin" and m[2][1] == "<<" and m[2][2] == ("const", 1):
+                return x, m[2][3], t[3]
+            if m[0] == "un" and m[1] == "~" and m[2][0] == "bin" and m[2][1] == "<<" and m[2][2] == ("const", -1):
+                return x, m[2][3], t[3]
     return None
 
 
@@ -256,6 +273,13 @@ def field_values(eng: Engine, ctx: Ctx, rid1: str, rid2: str, rid3: str, rid5: s
                     B = st
                     S = mf[1]
                     break
+                if key in var_width and st[1] == ">>" and _mask_then_shift(st) is not None and _mask_then_shift(st)[0] == P:
+                    X_, R_, S_ = _mask_then_shift(st)
+                    pr_, ps_ = to_poly(R_, symn), to_poly(S_, symn)
+                    B, S = st, S_
+                    if not (pr_ is not None and ps_ is not None and (pr_ - ps_) == wpoly):
+                        fail(rid1, key, "variable-width extraction", "the NSat*NSig bits at the offset", show(st)[:60], node)
+                    break
                 if key in var_width and st[1] == "&" and st[2][0] == "bin" and st[2][1] == ">>" and st[2][2] == P:
                     # variable width: mask = (1 << W) - 1 with W the same product as in the shift
                     B, S = st, st[2][3]
@@ -417,10 +441,26 @@ def naming(eng: Engine, ctx: Ctx, rid: str, model: DecoderModel):
     sets = [e for e in se.effects if e.kind == "call" and e.term[2] == ("builtin", "setattr") and len(e.term[3]) == 3]
     tc = eng.tables.type_consts
     gen = [e for e in sets if e.term[3][1] in name_terms or e.term[3][1] == anamT]
+    typed_guards = any(c[0] == "cmp" and c[1] in ("==", "!=") and c[3] == ("const", tc["STR"]) for e in gen for c, pol in e.guards)
+    if not typed_guards:
+        # the type test is not a comparison with the text type in the generic routine (e.g. flags looked up in a table of type traits): decide by
+        # specialisation instead - a text field is stored under its bare key, every other field never is
+        wrong = []
+        for key, desc in eng.tables.fields.items():
+            ses = SH.specialise_single(eng, key)
+            stores = {e.term[3][1] for e in ses.effects if e.kind == "call" and e.term[2] == ("builtin", "setattr") and len(e.term[3]) == 3 and e.term[3][0] == ("self",)}
+            bare = ("const", key) in stores
+            if (desc[0] == tc["STR"]) != bare:
+                wrong.append(key)
+        n += 1
+        ctx.check(not wrong, rid, f.qualname, "bare key for text fields only (by specialisation on every field key)", expected="text fields stored under the key itself, all other fields under the indexed name",
+                  found=f"{len(wrong)} field(s) deviate: {wrong[:6]}" if wrong else f"{len(eng.tables.fields)} keys agree", **loc)
     for e in gen:
         n += 1
         isstr = any(c[0] == "cmp" and c[1] == "==" and c[3] == ("const", tc["STR"]) and pol for c, pol in e.guards)
         notstr = any(c[0] == "cmp" and c[1] == "==" and c[3] == ("const", tc["STR"]) and not pol for c, pol in e.guards)
+        if not typed_guards:
+            isstr, notstr = e.term[3][1] == anamT, e.term[3][1] != anamT  # decided per key above
         if e.term[3][1] == anamT:
             ctx.check(isstr, rid, f.qualname, norm(e.node)[:70], expected="bare key only for text fields", found=guard_text(e.guards)[:80], **eng.loc(f, e.node))
         else:
